@@ -112,9 +112,22 @@ class Check(object):
             raise CheckerFault("zero obligations generated for %s" % self.pid)
         res = discharge(allobls, timeout=self.timeout(), engine=eng)
         # retry undecided ones one at a time with a longer budget (load can make verdicts flip)
-        for i, r in enumerate(res):
-            if r["verdict"] in ("unknown", "error") and r["kind"] != "reach":
+        # A handful of such obligations are a load effect and get the long budget each; when a change to the code leaves dozens
+        # undecided (one broken clause fails on every path), the retry is done four at a time and is capped, so that the check
+        # still ends in minutes: beyond the cap the first verdict stands.
+        todo = [i for i, r in enumerate(res) if r["verdict"] in ("unknown", "error") and r["kind"] != "reach"]
+        # a function that already has a refuted obligation (a solver model) is decided: its undecided obligations are not retried
+        refuted = set(owner[r["name"]] for r in res if r["verdict"] == "sat" and r["kind"] != "reach")
+        todo = [i for i in todo if owner[res[i]["name"]] not in refuted]
+        if len(todo) <= 6:
+            for i in todo:
                 r2 = discharge([allobls[i]], timeout=max(60, self.timeout() * 3), workers=1, engine=eng)[0]
+                r2["retried"] = True
+                res[i] = r2
+        else:
+            cap = todo[:16]
+            rr = discharge([allobls[i] for i in cap], timeout=45, workers=8, engine=eng)
+            for i, r2 in zip(cap, rr):
                 r2["retried"] = True
                 res[i] = r2
         self.obl_results.extend(res)
